@@ -177,6 +177,12 @@ func VH_C18_BotOther() {
 
 	err := ad.UpdateTableState(t)
 	verifrt.Assert(err == nil, "bot accepts the snapshot")
+	if seated && isIn && gs != nil {
+		// step lemma behind "stays silent when its view is stale" over several deliveries:
+		// whatever the view asked of the bot, it is remembered, so that an older view of the
+		// same hand arriving later is recognised as stale
+		verifrt.Assert(br.curGameID == gs.GameID && br.lastGameStateTime >= gs.UpdatedAt, "the bot remembers the newest view of the hand it was shown")
+	}
 	if !asked {
 		verifrt.Reach("silent")
 		verifrt.Assert(len(ad.calls) == 0, "bot stays silent when not asked or when its view is stale")
